@@ -6,7 +6,8 @@ Model: `TinyVerif/Model/Fs.lean` (kernel contract = assumption; byte-level mirro
 Every theorem quantifies over every tree `st.root`, every working directory, every path byte string of the
 modelled domain (relative/absolute, any number of components, repeated and trailing separators, any existing
 prefix, any length: the 512-byte stack/heap split has both arms, PATH_MAX is part of `parsePath`), and every
-environment script of short transfers.  `view root q` is what an observer sees at location `q`
+environment input: scripts of short `write` / `copy_file_range` counts, and the split of a directory's records
+over successive `getdents64` answers.  `view root q` is what an observer sees at location `q`
 (kind + content, directories without their children), so "`∀ q ≠ loc, view … q = view … q`" says that nothing
 but the named location changed — symlink targets included.
 -/
@@ -84,18 +85,32 @@ theorem create_dir_all_untouched (st : FS) (p : Bytes) :
     ∀ q k, view st.root q = some k → view (createDirAll st p).1.root q = some k :=
   createDirAll_mono st p
 
-/- Full statement of create_dir_all_post:
-     createDirAll st p = (st', .ok ()) →
-       ∃ loc tr, parsePath st p = .ok (loc, tr) ∧ (∀ l, l <+: loc → ∃ es, getAt st'.root l = some (.dir es)) ∧ untouched
-   Proved below for every path that does not END in '/' (any number of repeated separators elsewhere, relative or
-   absolute, any existing prefix, any length).  Missing: paths with a trailing separator when the last `mkdir`
-   (the one on the path without its final '/') created the directory — needs `comps (xs ++ [47]) = comps xs` and an
-   invariant of the upward loop; that class is covered by the correspondence streams (directed cases `m2/a/b//`,
-   `d/`, random trailing separators) and by the model/implementation agreement, not by a theorem. -/
+/-- **create_dir_all_post** (EVERY path: absolute, relative, repeated separators, any number of trailing separators,
+any existing prefix, any length): on Ok the location the path names and every one of its ancestors is a directory,
+everything that existed is unchanged, the path is in the modelled domain, and — whenever the path is one the kernel
+accepts at all (shorter than PATH_MAX) — it resolves to exactly that location.
+`hroot` (the root of the tree is a directory) is needed for the single path `/`, for which the code makes no system
+call at all (`create_dir_all_root_needed`). -/
+theorem create_dir_all_post (st st' : FS) (p : Bytes) (hroot : ∃ es, st.root = .dir es)
+    (h : createDirAll st p = (st', .ok ())) :
+    (∀ l, l <+: pathLoc st p → ∃ es, getAt st'.root l = some (.dir es)) ∧
+    (∀ q k, view st.root q = some k → view st'.root q = some k) ∧
+    (comps p).any isDots = false ∧
+    (p.length < PATH_MAX → ∃ tr, parsePath st p = .ok (pathLoc st p, tr)) := by
+  have hm := createDirAll_mono st p
+  rw [h] at hm
+  obtain ⟨⟨es, hg⟩, hdots, hpp⟩ := createDirAll_dirAt st st' p hroot h
+  refine ⟨?_, hm.2, hdots, hpp⟩
+  intro l hpre
+  obtain ⟨m, hm'⟩ := hpre
+  cases m with
+  | nil =>
+    have hl : l = pathLoc st p := by simpa using hm'
+    exact ⟨es, by rw [hl]; exact hg⟩
+  | cons c m' => exact ancestors_are_dirs st'.root l (c :: m') _ (by simp) (by rw [hm']; exact hg)
 
-/-- **create_dir_all_post_partial** (paths not ending in a separator): on Ok the path and every one of its ancestors
-is a directory, and everything that existed is unchanged. -/
-theorem create_dir_all_post_partial (st st' : FS) (p : Bytes)
+/-- paths not ending in a separator need no assumption on the root, and Ok implies the kernel accepts the path -/
+theorem create_dir_all_post_no_trailing (st st' : FS) (p : Bytes)
     (h : createDirAll st p = (st', .ok ())) (hl : p.getLast? ≠ some SLASH) :
     ∃ loc tr, parsePath st p = .ok (loc, tr) ∧
       (∀ l, l <+: loc → ∃ es, getAt st'.root l = some (.dir es)) ∧
@@ -113,22 +128,50 @@ theorem create_dir_all_post_partial (st st' : FS) (p : Bytes)
 
 /-! ## directory iteration -/
 
-/- Full statement of readdir_exactly_once:
-     (∀ r ∈ rs, 1 ≤ r.name.length ∧ r.name.length ≤ 255 ∧ ∀ b ∈ r.name, b ≠ 0) →
-       readDirAll rs = .ok (rs.map fun r => (r.dtype, r.name))
-   i.e. the iterator over the 512-byte buffer yields every record of a quiescent directory stream exactly once, in
-   order, with its exact name and type, for any fan-out.  Proved: the per-record step for EVERY record and whatever
-   bytes follow it in the buffer (`readdir_record_exact`: exact d_reclen — hence the next record is found exactly —
-   exact type, exact name for every name of 0..255 non-NUL bytes), and complete runs with several refills for
-   concrete streams by kernel evaluation (`readdir_three_refills`).  Missing: the induction over refills
-   (`fill` returns a non-empty prefix `taken` with `bytes = taken.flatMap encode`; the invariant
-   `buf.drop offset = pending.flatMap encode ++ junk`).  The correspondence compares yields, per-call byte counts and
-   record lengths with the kernel's for fan-outs up to thousands and names of 1..255 bytes. -/
+/-- **readdir_exactly_once** — for EVERY directory content `rs` and EVERY way the kernel may split it over
+successive `getdents64(fd, buf, 512)` calls (`chunks`: any partition of `rs` into non-empty runs of records that fit
+the 512-byte buffer, followed by the answer 0; whatever the script holds after that is never asked for), the iterator
+yields every entry exactly once, in order, with its exact type and name — names of 0..255 bytes, `.` and `..` like any
+other entry — and then `None` for every one of the `k` further calls, for every `k`. -/
+theorem readdir_exactly_once (rs : List Rec) (chunks : List (List Rec)) (tail : List Dents) (k : Nat)
+    (hsplit : chunks.flatten = rs) (hok : ∀ c ∈ chunks, ChunkOk c) :
+    (ReadDir.new (chunks.map Dents.recs ++ .eod :: tail)).run (rs.length + k) =
+      rs.map entryOf ++ List.replicate k Item.done := by
+  subst hsplit
+  exact readdir_split' chunks tail k hok
 
-/-- **readdir_record_exact** (`readdir_exactly_once_partial`, per-record step): `Dirent::try_from_bytes` applied to a
+/-- the same when the directory stream simply ends (script exhausted) -/
+theorem readdir_exactly_once_exhausted (rs : List Rec) (chunks : List (List Rec)) (k : Nat)
+    (hsplit : chunks.flatten = rs) (hok : ∀ c ∈ chunks, ChunkOk c) :
+    (ReadDir.new (chunks.map Dents.recs)).run (rs.length + k) = rs.map entryOf ++ List.replicate k Item.done := by
+  subst hsplit
+  exact readdir_split_exhausted' chunks k hok
+
+/-- an error answer (EINTR, EIO, …) at any point: `ReadDir::next` does NOT retry — the entries of the chunks received
+so far, exactly once and in order, then that error once, then `None` forever -/
+theorem readdir_error_answer (rs : List Rec) (chunks : List (List Rec)) (e : Nat) (tail : List Dents) (k : Nat)
+    (hsplit : chunks.flatten = rs) (hok : ∀ c ∈ chunks, ChunkOk c) :
+    (ReadDir.new (chunks.map Dents.recs ++ .err e :: tail)).run (rs.length + (k + 1)) =
+      rs.map entryOf ++ Item.err (.os e) :: List.replicate k Item.done := by
+  subst hsplit
+  exact readdir_split_err' chunks e tail k hok
+
+/-- every directory content has a legal split: the kernel's own (as many whole records as fit, each time); and over
+it the drained iterator (`readDirAll`, what `remove_all` consumes) returns every record exactly once, in order -/
+theorem readdir_kernel_split (rs : List Rec) (hok : ∀ r ∈ rs, RecOk r) :
+    (∃ chunks : List (List Rec), kernelDents 512 rs.length rs = chunks.map Dents.recs ++ [.eod] ∧
+      chunks.flatten = rs ∧ ∀ c ∈ chunks, ChunkOk c) ∧
+    readDirAll rs = .ok (rs.map fun r => (r.dtype, r.name)) :=
+  ⟨kernelDents_chunks rs.length rs (Nat.le_refl _) hok, readDirAll_exact rs hok⟩
+
+/-- `DirEntry::is_relative_reference` singles out exactly `.` and `..` -/
+theorem is_relative_reference_iff (n : Name) : isRelRef n = true ↔ n = [DOT] ∨ n = [DOT, DOT] := by
+  simp [isRelRef]
+
+/-- **readdir_record_exact** (the per-record step under the theorems above): `Dirent::try_from_bytes` applied to a
 buffer that starts with one `linux_dirent64` record returns exactly that record's length, type and name, whatever
 follows (next records or stale bytes of an earlier refill). -/
-theorem readdir_exactly_once_partial (r : Rec) (tail : Bytes)
+theorem readdir_record_exact (r : Rec) (tail : Bytes)
     (hv : r.name.length ≤ 255) (hz : ∀ b ∈ r.name, b ≠ 0) :
     tryFromBytes (encode r ++ tail) = .some ⟨reclen r, r.dtype, r.name⟩ ∧
     20 + r.name.length ≤ reclen r ∧ reclen r ≤ 280 ∧ reclen r % 8 = 0 :=
@@ -145,6 +188,23 @@ def okList (o : Out (List (Nat × Name))) : Option (List (Nat × Name)) := Excep
 512-byte buffer; every one is yielded exactly once, in order, with its exact name and type -/
 theorem readdir_three_refills :
     okList (readDirAll demoStream) = some (demoStream.map fun r => (r.dtype, r.name)) := by decide +kernel
+
+/-- three different legal splits of the same ten records (one record per call; the kernel's own; uneven) -/
+def demoSplits : List (List (List Rec)) :=
+  [demoStream.map (fun r => [r]),
+   [demoStream.take 3, (demoStream.drop 3).take 2, (demoStream.drop 5).take 1, (demoStream.drop 6).take 2,
+    (demoStream.drop 8).take 1, demoStream.drop 9],
+   [demoStream.take 2, (demoStream.drop 2).take 1, (demoStream.drop 3).take 1, (demoStream.drop 4).take 1,
+    (demoStream.drop 5).take 1, (demoStream.drop 6).take 3, demoStream.drop 9]]
+
+/-! ## copy: the environment's short counts -/
+
+/-- the script of `copyLoop` ranges over EVERY legal return value of `copy_file_range`: any `0 < w ≤ requested` is
+produced by the script entry `w`, and no entry produces anything else (0 is returned only at the end of the source,
+which `File::copy` never asks beyond: it requests `st_size - offset` bytes) -/
+theorem copy_counts_cover (want : Nat) :
+    (∀ w, 0 < w → w ≤ want → clamp w want = w) ∧ (∀ k, clamp k want ≤ want) ∧ (∀ k, 0 < want → 0 < clamp k want) :=
+  ⟨fun w h1 h2 => by unfold clamp; split <;> omega, fun k => clamp_le k want, fun k h => clamp_pos k want h⟩
 
 /-! ## defects of the code before the `fix:` commits (model-level witnesses; replayed on the real code by checks/c14.py) -/
 
@@ -208,9 +268,52 @@ theorem create_dir_all_repeated_slash :
 /-- a regular file in the way is reported, not taken for the directory -/
 theorem create_dir_all_file_in_the_way : errOf (createDirAll demo [100]) = some (.os EEXIST) := by decide
 
+/-- THE EXCEPTION CLASS of "Ok ⇒ the path resolves": a path of exactly PATH_MAX = 4096 bytes that ends in a
+separator.  The code only ever hands the kernel the path WITHOUT its last separator (4095 bytes: accepted), and when
+that `mkdir` creates the directory it returns Ok without the final `stat` of the whole path — which the kernel (and
+std::fs::create_dir_all) refuses with ENAMETOOLONG.  The directory named lexically does exist (first conjunct of
+`create_dir_all_post`).  Witness: `a` followed by 4095 separators. -/
+def pathMaxTrailing : Bytes := 97 :: List.replicate 4095 SLASH
+
+def statErrAfter (r : FS × Out Unit) (p : Bytes) : Option E :=
+  match r with
+  | (st, .ok ()) => (match stat st p with | .error e => some e | .ok _ => none)
+  | (_, .error _) => none
+
+theorem create_dir_all_path_max_trailing :
+    pathMaxTrailing.length = PATH_MAX ∧ errOf (createDirAll demo pathMaxTrailing) = none ∧
+    viewAfter (createDirAll demo pathMaxTrailing) [[97]] = some (some .dir) ∧
+    statErrAfter (createDirAll demo pathMaxTrailing) pathMaxTrailing = some (.os ENAMETOOLONG) := by decide +kernel
+
+/-- one byte shorter, the same shape resolves -/
+theorem create_dir_all_below_path_max_trailing :
+    errOf (createDirAll demo (97 :: List.replicate 4094 SLASH)) = none ∧
+    statErrAfter (createDirAll demo (97 :: List.replicate 4094 SLASH)) (97 :: List.replicate 4094 SLASH) = none := by
+  decide +kernel
+
+/-- `create_dir_all("/")` makes no system call and returns Ok: in a model state whose root is not a directory the
+conclusion fails, hence `hroot` (a real root always is a directory) -/
+theorem create_dir_all_root_needed :
+    errOf (createDirAll ⟨.file [], []⟩ [SLASH]) = none ∧ view (createDirAll ⟨.file [], []⟩ [SLASH]).1.root [] = some (.file []) := by
+  decide
+
 /-! ## non-vacuity -/
 
 example : errOf (createDirAll demo [101, 47, 47, 110, 47, 109]) = none ∧ ([101, 47, 47, 110, 47, 109] : Bytes).getLast? ≠ some SLASH := by decide
+-- create_dir_all_post: `e//n/m//` (existing prefix, repeated and trailing separators), `/x/` absolute, and `//`
+example : (∃ es, demo.root = .dir es) ∧ errOf (createDirAll demo [101, 47, 47, 110, 47, 109, 47, 47]) = none ∧
+    viewAfter (createDirAll demo [101, 47, 47, 110, 47, 109, 47, 47]) [[101], [110], [109]] = some (some .dir) :=
+  ⟨⟨_, rfl⟩, by decide, by decide⟩
+example : errOf (createDirAll demo [47, 120, 47]) = none ∧ errOf (createDirAll demo [47, 47]) = none ∧
+    errOf (createDirAll demo [47]) = none := by decide
+-- a regular file with a trailing separator is reported (ENOTDIR from the final stat), not taken for a directory
+example : errOf (createDirAll demo [100, 47]) = some (.os ENOTDIR) := by decide
+-- readdir_exactly_once: every one of the three splits is a legal partition of the ten records (names up to 255 bytes)
+example : ∀ chunks ∈ demoSplits, chunks.flatten = demoStream ∧ ∀ c ∈ chunks, ChunkOk c := by decide +kernel
+example : ∀ r ∈ demoStream, RecOk r := by decide +kernel
+-- readdir_error_answer: EINTR after the first two chunks of the second split
+example : ((demoSplits.getD 1 []).take 2).flatten = demoStream.take 5 ∧ ∀ c ∈ (demoSplits.getD 1 []).take 2, ChunkOk c := by
+  decide +kernel
 example : errOf (removeDirAll ⟨.dir [([118], .dir [([108], .symlink [46, 46, 47, 116]), ([100], .dir [([102], .file [1])])]), ([116], .file [7])], []⟩ [118, 47]) = none := by decide +kernel
 
 example : errOf (fsWrite demo [101, 47, 47, 102] [1, 2, 3] [2]) = none := by decide
